@@ -314,6 +314,47 @@ var c09Profile = opProfile{
 	attacks: []string{"stale-id", "replay-callback"}, behaviours: c01Behaviours,
 }
 
+// c09Enum: three canonical logout histories run with EVERY single fault position in every mode, on both stores -
+// a logout whose removal fails reports an error and may be repeated; whatever is answered as a successful logout is final.
+func c09Enum() func(c *sim.Case) {
+	cache := map[int]int{}
+	return func(c *sim.Case) {
+		combo := sim.Pick(c, "combo", 6) // history x store
+		hi, st := combo%3, combo/3
+		login, nav, lo := op{K: "login", Target: "/a"}, op{K: "nav", Target: "/a"}, op{K: "logout"}
+		ops := [][]op{{login, lo, nav}, {login, lo, lo, nav, nav}, {login, nav, lo, nav, lo, nav}}[hi]
+		ho := histOpts{o: sim.WorldOpts{Store: []string{"memory", "redis"}[st], AccessToken: true, Logout: true}, idTTL: 600 * time.Second, expIn: 300}
+		P, ok := cache[combo]
+		if !ok {
+			h := ho.build(c)
+			for i := range ops {
+				h.exec(&ops[i])
+			}
+			P = h.w.Pos()
+			h.w.Close()
+			cache[combo] = P
+			c.Trace = nil
+		}
+		modes := []string{"before", "after"}
+		if st == 1 {
+			modes = append(modes, "redis", "redis1", "redis2")
+		}
+		ho.faults = map[int]string{sim.Pick(c, "pos", P): modes[sim.Pick(c, "mode", len(modes))]}
+		c.Logf("canonical logout history %d, world: %v", hi, ho)
+		logOps(c, ops)
+		mon := &c09Mon{loggedOut: map[string]int{}}
+		h := ho.build(c, mon)
+		defer h.w.Close()
+		for i := range ops {
+			h.exec(&ops[i])
+		}
+		if h.w.FiredCount() > 0 {
+			c.NonTrivial()
+		}
+		c.FP("enum", combo, fmt.Sprint(ho.faults))
+	}
+}
+
 func c09Seq(c *sim.Case) {
 	ho := genHistOpts(c)
 	ho.o.Logout = true
@@ -363,7 +404,7 @@ func TestC09(t *testing.T) {
 		"interleaving granularity is the store call / token-endpoint call; a check whose last step precedes the completion of the logout may answer OK",
 		"a callback that completes after the logout is a new interactive login and is classified, not judged",
 	}
-	parts := map[string]func(*sim.Case){"sched-1": c09Sched(1), "sched-2": c09Sched(2), "sequential": c09Seq}
+	parts := map[string]func(*sim.Case){"sched-1": c09Sched(1), "sched-2": c09Sched(2), "sequential": c09Seq, "enum-faults": c09Enum()}
 	if r.Replay != "" {
 		r.ReplayFile(parts)
 		return
@@ -375,5 +416,6 @@ func TestC09(t *testing.T) {
 		limit = 0
 	}
 	r.Exhaustive("sched-2", limit, parts["sched-2"])
+	r.Exhaustive("enum-faults", 0, parts["enum-faults"])
 	r.Rapid("sequential", r.N(8000, 80000), c09Seq)
 }
